@@ -965,4 +965,107 @@ theorem assign_facts {p : Array Int} {E : List (Nat × Nat)} {n : Nat} (hs : p.s
     rw [← par_eq h, ho.done t (by omega) ((hact t).mpr ht),
       isMinOf_unique hm (rootOf_isMin hI hconn t)]
 
+/-! ### the numbering is determined by the partition -/
+
+theorem exists_min_of_exists {P : Nat → Prop} (h : ∃ x, P x) : ∃ m, P m ∧ ∀ x, P x → m ≤ x := by
+  obtain ⟨x0, hx0⟩ := h
+  have aux : ∀ k, (∃ x, x ≤ k ∧ P x) → ∃ m, P m ∧ ∀ x, P x → m ≤ x := by
+    intro k
+    induction k with
+    | zero =>
+      rintro ⟨x, hx, hp⟩
+      have : x = 0 := by omega
+      subst this
+      exact ⟨0, hp, fun _ _ => Nat.zero_le _⟩
+    | succ k ih =>
+      rintro ⟨x, hx, hp⟩
+      by_cases hk : ∃ y, y ≤ k ∧ P y
+      · exact ih hk
+      · have hxe : x = k + 1 := by
+          by_cases h' : x ≤ k
+          · exact absurd ⟨x, h', hp⟩ hk
+          · omega
+        subst hxe
+        refine ⟨k + 1, hp, fun y hy => ?_⟩
+        by_cases h' : y ≤ k
+        · exact absurd ⟨y, h', hy⟩ hk
+        · omega
+  exact aux x0 ⟨x0, Nat.le_refl _, hx0⟩
+
+theorem exists_isMinOf (E : List (Nat × Nat)) (a : Nat) : ∃ m, IsMinOf E a m :=
+  exists_min_of_exists ⟨a, Conn.refl a⟩
+
+theorem isMinOf_congr {E E' : List (Nat × Nat)} (hC : ∀ u v, Conn E u v ↔ Conn E' u v) {a m : Nat}
+    (h : IsMinOf E a m) : IsMinOf E' a m :=
+  ⟨(hC _ _).mp h.1, fun x hx => h.2 x ((hC _ _).mpr hx)⟩
+
+/-- The numbering is determined by the partition: two runs whose merge graphs have the same touched trees and
+    the same connectivity (different merge orders, or the incidence of a constraint given by different but
+    equivalent tree lists) produce the same island array and the same island count. -/
+theorem assignSpec_unique {E E' : List (Nat × Nat)} {n : Nat} {out out' : Assign}
+    (s : AssignSpec E n out) (s' : AssignSpec E' n out')
+    (hT : ∀ u, Touched E u ↔ Touched E' u) (hC : ∀ u v, Conn E u v ↔ Conn E' u v) :
+    out.island = out'.island ∧ out.nisland = out'.nisland := by
+  -- one direction of the comparison, by strong induction on the id
+  have key : ∀ {E E' : List (Nat × Nat)} {out out' : Assign}, AssignSpec E n out → AssignSpec E' n out' →
+      (∀ u, Touched E u ↔ Touched E' u) → (∀ u v, Conn E u v ↔ Conn E' u v) →
+      ∀ (c : Nat) (b : Nat) (hb : b < out.island.size) (hb' : b < out'.island.size), Touched E b →
+        out.island[b] = (c : Int) → (c : Int) ≤ out'.island[b] := by
+    intro E E' out out' s s' hT hC c
+    induction c using Nat.strongRecOn with
+    | ind c ih =>
+      intro b hb hb' htb hfb
+      have h0 := (s'.rng b hb' ((hT b).mp htb)).1
+      by_cases hc : c = 0
+      · subst hc; simpa using h0
+      · have hlt : c - 1 < out.nisland := by
+          have := (s.rng b hb htb).2; omega
+        obtain ⟨b', hb1, hfb'⟩ := s.surj (c - 1) hlt
+        have hb1' : b' < out'.island.size := by rw [s'.isz, ← s.isz]; exact hb1
+        have htb' : Touched E b' := by
+          by_cases hn : Touched E b'
+          · exact hn
+          · have := (s.neg b' hb1).mpr hn
+            omega
+        have h1 := ih (c - 1) (by omega) b' hb1 hb1' htb' hfb'
+        obtain ⟨ma, hma⟩ := exists_isMinOf E b'
+        obtain ⟨mb, hmb⟩ := exists_isMinOf E b
+        have hl : out.island[b'] < out.island[b] := by omega
+        have hm := (s.lt_iff b' b hb1 hb ma mb htb' htb hma hmb).mp hl
+        have := (s'.lt_iff b' b hb1' hb' ma mb ((hT _).mp htb') ((hT _).mp htb)
+          (isMinOf_congr hC hma) (isMinOf_congr hC hmb)).mpr hm
+        omega
+  have hT' : ∀ u, Touched E' u ↔ Touched E u := fun u => (hT u).symm
+  have hC' : ∀ u v, Conn E' u v ↔ Conn E u v := fun u v => (hC u v).symm
+  have hval : ∀ b (hb : b < out.island.size) (hb' : b < out'.island.size), out.island[b] = out'.island[b] := by
+    intro b hb hb'
+    by_cases htb : Touched E b
+    · have r := s.rng b hb htb
+      have r' := s'.rng b hb' ((hT b).mp htb)
+      have h1 := key s s' hT hC (out.island[b]).toNat b hb hb' htb (by omega)
+      have h2 := key s' s hT' hC' (out'.island[b]).toNat b hb' hb ((hT b).mp htb) (by omega)
+      omega
+    · rw [(s.neg b hb).mpr htb, (s'.neg b hb').mpr (fun h => htb ((hT b).mpr h))]
+  have hsz : out.island.size = out'.island.size := by rw [s.isz, s'.isz]
+  refine ⟨Array.ext hsz (fun i h1 h2 => hval i h1 h2), ?_⟩
+  -- island counts: the largest id is attained
+  have cnt : ∀ {E E' : List (Nat × Nat)} {out out' : Assign}, AssignSpec E n out → AssignSpec E' n out' →
+      (∀ u, Touched E u ↔ Touched E' u) →
+      (∀ b (hb : b < out.island.size) (hb' : b < out'.island.size), out.island[b] = out'.island[b]) →
+      out.nisland ≤ out'.nisland := by
+    intro E E' out out' s s' hT hval
+    by_cases h0 : out.nisland = 0
+    · omega
+    · obtain ⟨t, ht, hft⟩ := s.surj (out.nisland - 1) (by omega)
+      have ht' : t < out'.island.size := by rw [s'.isz, ← s.isz]; exact ht
+      have htt : Touched E t := by
+        by_cases hn : Touched E t
+        · exact hn
+        · have := (s.neg t ht).mpr hn
+          omega
+      have := (s'.rng t ht' ((hT t).mp htt)).2
+      rw [← hval t ht ht', hft] at this
+      omega
+  exact Nat.le_antisymm (cnt s s' hT hval) (cnt s' s hT' (fun b hb hb' => (hval b hb' hb).symm))
+
 end MjProof.Island
